@@ -26,6 +26,9 @@ RULE = (
     ".grad untouched; (iii) a twin run with the inputs listed in another order gives the same increments. "
     "Non-trivial = >= 2 rows and >= 2 inputs and one of: two inputs of equal numel, a reused leaf, an input that does "
     "not influence the outputs, an output of rank >= 2, a 0-d input. Distinct = distinct case description."
+    " Further parts: `larger_programs`; `large_inputs` (2-5 rows, 7e4..2.4e6 columns in 2-3 inputs) and `many_rows` (70..1030 rows) with "
+    "a closed-form Jacobian of y = tanh(sum_b A_b w_b); a sixth of the explicit-input cases lists a LEAF among `tensors`; a third "
+    "passes the raw aggregator, half of those with a user forward hook or as a user subclass overriding forward()."
 )
 ASSUMPTIONS = [
     "the NumPy dual-number oracle (validated against plain torch.autograd by tools/selfcheck_programs.py)",
